@@ -1,0 +1,20 @@
+//go:build verif
+
+package search
+
+import "github.com/sourcegraph/zoekt"
+
+// VerifShardedReplaceC18 reloads shards of a searcher made by VerifShardedSearcherC18, as the directory watcher's
+// loader does: shardedSearcher.replace under the given keys (a nil searcher drops the key). Verification hook (C18).
+func VerifShardedReplaceC18(s zoekt.Streamer, shards map[string]zoekt.Searcher) bool {
+	t, ok := s.(*typeRepoSearcher)
+	if !ok {
+		return false
+	}
+	ss, ok := t.Streamer.(*shardedSearcher)
+	if !ok {
+		return false
+	}
+	ss.replace(shards)
+	return true
+}
